@@ -16,7 +16,7 @@ open SmVerif SmVerif.Spec SmVerif.Bridge
 set_option linter.unusedSectionVars false
 set_option linter.unusedTactic false
 set_option linter.unreachableTactic false
-set_option maxHeartbeats 1000000
+set_option maxHeartbeats 2000000
 variable {R : Type} [Field R] [LinearOrder R] [IsStrictOrderedRing R] (P : Prims R)
 
 abbrev Rx (P : Prims R) (a : R) : Mat 3 3 R := rotx (P.cos a) (P.sin a)
@@ -269,5 +269,309 @@ theorem tr2rpy_zyx_right_inverse (hS : P.Sqrt) (hP : Atan2Polar P) (hA : AtanLaw
         rw [e, abs_zero] at this; exact abs_eq_zero.mp (le_antisymm this (abs_nonneg _))
       rw [e, h10] at ey; linarith
     field_simp; linear_combination (M 2 0) * hcy
+
+/-! ### tr2eul is a right inverse of eul2r (ZYZ), both non-singular branches -/
+
+/-- algebraic core of "eul2r ∘ tr2eul = id" (ZYZ): φ from the third column, θ from its length and M22, ψ from the rotated first rows -/
+theorem zyz_core (M : Mat 3 3 R) (hM : IsSO3 M) (ρ cf sf ct st cp sp : R) (hρ : ρ ≠ 0)
+    (hρ2 : ρ * ρ = M 0 2 * M 0 2 + M 1 2 * M 1 2) (h1 : cf * ρ = M 0 2) (h2 : sf * ρ = M 1 2)
+    (h3 : ct = M 2 2) (h4 : st = ρ) (h5 : cp = -sf * M 0 1 + cf * M 1 1) (h6 : sp = -sf * M 0 0 + cf * M 1 0) :
+    mmul (mmul (rotz cf sf) (roty ct st)) (rotz cp sp) = M := by
+  obtain ⟨c00, c01, c02, c10, c11, c12, c20, c21, c22⟩ := hM.cof
+  have col2 : M 0 2 * M 0 2 + M 1 2 * M 1 2 + M 2 2 * M 2 2 = 1 := by
+    have e := congrFun (congrFun hM.transpose_mul 2) 2
+    simpa [mmul, mT, one3, Fin.sum_univ_three] using e
+  have hρ2' : ρ * ρ ≠ 0 := mul_ne_zero hρ hρ
+  subst h3 h5 h6
+  rw [h4]
+  apply Mat.ext33' <;> simp [mmul, rotz, roty, Fin.sum_univ_three]
+  · apply mul_right_cancel₀ hρ2'
+    linear_combination (-cf*sf*ρ^2) * c10 + (M 0 0*M 1 2 + M 0 0*ρ*sf - M 0 2*M 2 1*cf*ρ) * h2 + (-cf^2*ρ^2) * c00 + (M 0 0*M 0 2 + M 0 0*cf*ρ + M 1 2*M 2 1*cf*ρ) * h1 + (-M 0 0) * hρ2
+  · apply mul_right_cancel₀ hρ2'
+    linear_combination (-1) * c01 + (M 0 1*M 1 2 + M 0 1*ρ*sf - M 1 1*cf*ρ + M 0 0*M 2 2*cf*ρ) * h2 + (M 2 2) * c10 + (-M 1 2) * c20 + (M 2 2*cf*ρ) * c21 + (-M 1 1*M 1 2 - M 2 1*M 2 2 - M 1 0*M 2 2*cf*ρ) * h1 + (-M 0 1) * col2 + (-M 0 1) * hρ2
+  · linear_combination h1
+  · apply mul_right_cancel₀ hρ2'
+    linear_combination (-ρ^2*sf^2) * c10 + (-cf*sf*ρ^2) * c00 + (-M 1 0) * hρ2 + (M 0 2*M 1 0 + M 1 0*cf*ρ + M 1 2*M 2 1*ρ*sf) * h1 + (M 1 0*M 1 2 + M 1 0*ρ*sf - M 0 2*M 2 1*ρ*sf) * h2
+  · apply mul_right_cancel₀ hρ2'
+    linear_combination (-ρ^2*sf^2) * c11 + (-M 1 1) * hρ2 + (-cf*sf*ρ^2) * c01 + (M 0 2*M 1 1 + M 1 1*cf*ρ - M 1 2*M 2 0*ρ*sf) * h1 + (M 1 1*M 1 2 + M 1 1*ρ*sf + M 0 2*M 2 0*ρ*sf) * h2
+  · linear_combination h2
+  · linear_combination (-1) * c20 + (-M 1 1) * h1 + (M 0 1) * h2
+  · linear_combination (-1) * c21 + (M 1 0) * h1 + (-M 0 0) * h2
+
+/-- **eul2r(tr2eul(R)) = R** for every rotation matrix whose third column is not (numerically) along z, i.e. on both
+non-singular branches of the ZYZ extraction -/
+theorem tr2eul_right_inverse (hS : P.Sqrt) (hP : Atan2Polar P) (M : Mat 3 3 R) (hM : IsSO3 M) (v : Vec 3 R)
+    (h : Gen.tr2eul P M = .ok v) (hns : ¬ (|M 0 2| < 5 / 2251799813685248 ∧ |M 1 2| < 5 / 2251799813685248)) :
+    Gen.eul2r_rad P v = .ok M := by
+  have r00 : M 0 0 * M 0 0 + M 0 1 * M 0 1 + M 0 2 * M 0 2 = 1 := by
+    have e := congrFun (congrFun hM.orth 0) 0; simpa [mmul, mT, one3, Fin.sum_univ_three] using e
+  have r11 : M 1 0 * M 1 0 + M 1 1 * M 1 1 + M 1 2 * M 1 2 = 1 := by
+    have e := congrFun (congrFun hM.orth 1) 1; simpa [mmul, mT, one3, Fin.sum_univ_three] using e
+  have r01 : M 0 0 * M 1 0 + M 0 1 * M 1 1 + M 0 2 * M 1 2 = 0 := by
+    have e := congrFun (congrFun hM.orth 0) 1; simpa [mmul, mT, one3, Fin.sum_univ_three] using e
+  have col2 : M 0 2 * M 0 2 + M 1 2 * M 1 2 + M 2 2 * M 2 2 = 1 := by
+    have e := congrFun (congrFun hM.transpose_mul 2) 2; simpa [mmul, mT, one3, Fin.sum_univ_three] using e
+  have nz : M 0 2 ≠ 0 ∨ M 1 2 ≠ 0 := by
+    by_contra hc; push_neg at hc; apply hns; rw [hc.1, hc.2]; simp
+  obtain ⟨hcf, hsf⟩ := hP (M 1 2) (M 0 2) nz
+  set ρ := P.sqrt (M 0 2 * M 0 2 + M 1 2 * M 1 2) with hρdef
+  have hnn : 0 ≤ M 0 2 * M 0 2 + M 1 2 * M 1 2 := add_nonneg (mul_self_nonneg _) (mul_self_nonneg _)
+  have hρ2 : ρ * ρ = M 0 2 * M 0 2 + M 1 2 * M 1 2 := hS.mul_self _ hnn
+  have hpos : 0 < M 0 2 * M 0 2 + M 1 2 * M 1 2 := by
+    rcases nz with h1 | h1
+    · have := mul_self_pos.mpr h1; nlinarith [mul_self_nonneg (M 1 2)]
+    · have := mul_self_pos.mpr h1; nlinarith [mul_self_nonneg (M 0 2)]
+  have hρpos : 0 < ρ := by
+    rcases lt_or_eq_of_le (hS.nonneg (M 0 2 * M 0 2 + M 1 2 * M 1 2)) with h1 | h1
+    · exact h1
+    · exfalso; rw [← hρdef] at h1; rw [← h1] at hρ2; linarith
+  have hρne : ρ ≠ 0 := ne_of_gt hρpos
+  set cf := P.cos (P.atan2 (M 1 2) (M 0 2)) with hcfd
+  set sf := P.sin (P.atan2 (M 1 2) (M 0 2)) with hsfd
+  -- θ: the first argument of atan2 is ρ itself
+  have hy : cf * M 0 2 + sf * M 1 2 = ρ := by
+    apply mul_right_cancel₀ hρne
+    linear_combination (M 0 2) * hcf + (M 1 2) * hsf - hρ2
+  have hθarg : M 2 2 * M 2 2 + ρ * ρ = 1 := by linear_combination col2 + hρ2
+  obtain ⟨hct, hst⟩ := hP ρ (M 2 2) (Or.inr hρne)
+  have s1 : P.sqrt 1 = 1 := sqrt_unique P hS 1 1 zero_le_one zero_lt_one (by ring)
+  rw [hθarg, s1, mul_one] at hct hst
+  -- ψ: its two arguments lie on the unit circle
+  have hcirc : (-sf * M 0 1 + cf * M 1 1) * (-sf * M 0 1 + cf * M 1 1) + (-sf * M 0 0 + cf * M 1 0) * (-sf * M 0 0 + cf * M 1 0) = 1 := by
+    have hρ2' : ρ * ρ ≠ 0 := mul_ne_zero hρne hρne
+    have : ((-sf * M 0 1 + cf * M 1 1) * (-sf * M 0 1 + cf * M 1 1) + (-sf * M 0 0 + cf * M 1 0) * (-sf * M 0 0 + cf * M 1 0) - 1) * (ρ * ρ) = 0 := by
+      linear_combination (-2*cf*sf*ρ^2) * r01 + (ρ^2*sf^2) * r00 + (M 0 2*M 1 0^2 + M 0 2*M 1 1^2 + cf*ρ*M 1 0^2 + cf*ρ*M 1 1^2 + 2*M 0 2*M 1 2*ρ*sf) * hcf + (M 0 2^2) * r11 + (M 1 2 + M 1 2*M 0 2^2 + ρ*sf - ρ*sf*M 0 2^2) * hsf + (-1) * hρ2
+    have := (mul_eq_zero.mp this).resolve_right hρ2'
+    linarith
+  have nzψ : (-sf * M 0 1 + cf * M 1 1) ≠ 0 ∨ (-sf * M 0 0 + cf * M 1 0) ≠ 0 := by
+    by_contra hc; push_neg at hc; rw [hc.1, hc.2] at hcirc; simp at hcirc
+  obtain ⟨hcp, hsp⟩ := hP (-sf * M 0 0 + cf * M 1 0) (-sf * M 0 1 + cf * M 1 1) nzψ
+  rw [hcirc, s1, mul_one] at hcp hsp
+  have key := zyz_core M hM ρ cf sf _ _ _ _ hρne hρ2 hcf hsf hct hst hcp hsp
+  unfold Gen.tr2eul at h; simp only [] at h
+  split_ifs at h with c1 c2 <;> cases h
+  · exact absurd ⟨c1, c2⟩ hns
+  all_goals
+    (rw [eul2r_zyz]; congr 1; simp only [v3_0, v3_1, v3_2, Rz, Ry]
+     have hy' := hy; simp only [hcfd, hsfd] at hy'
+     rw [hy']; convert key using 4 <;> ring_nf)
+
+/-! ### tr2rpy is a right inverse of rpy2r (XYZ / arm order) -/
+
+/-- with t = m/ρ: cos(atan t) = ρ and sin(atan t) = m -/
+theorem pitch_of_atan_pos (hS : P.Sqrt) (hA : AtanLaw P) (m ρ t : R) (hρ : 0 < ρ) (hρ2 : ρ * ρ = 1 - m * m) (ht : t * ρ = m) :
+    P.cos (P.atan t) = ρ ∧ P.sin (P.atan t) = m := by
+  obtain ⟨hc, hs⟩ := hA t
+  have hne : ρ ≠ 0 := ne_of_gt hρ
+  have hsq : P.sqrt (1 + t * t) = 1 / ρ := by
+    apply sqrt_unique P hS _ _ (add_nonneg zero_le_one (mul_self_nonneg t)) (by positivity)
+    field_simp
+    have : t = m / ρ := by field_simp; exact ht
+    rw [this]; field_simp; linarith [hρ2]
+  rw [hsq] at hc hs
+  constructor
+  · field_simp at hc; linarith [hc]
+  · have : P.sin (P.atan t) = t * ρ := by field_simp at hs; linarith [hs]
+    rw [this, ht]
+
+/-- algebraic core for the XYZ order: R = Rx(yaw) Ry(pitch) Rz(roll) -/
+theorem xyz_core (M : Mat 3 3 R) (hM : IsSO3 M) (ρ cr sr cp sp cy sy : R) (hρ : ρ ≠ 0)
+    (hρ2 : ρ * ρ = 1 - M 0 2 * M 0 2)
+    (h1 : cr * ρ = M 0 0) (h2 : sr * ρ = -M 0 1) (h3 : cp = ρ) (h4 : sp = M 0 2) (h5 : cy * ρ = M 2 2) (h6 : sy * ρ = -M 1 2) :
+    mmul (mmul (rotx cy sy) (roty cp sp)) (rotz cr sr) = M := by
+  obtain ⟨c00, c01, c02, c10, c11, c12, c20, c21, c22⟩ := hM.cof
+  have hρ2' : ρ * ρ ≠ 0 := mul_ne_zero hρ hρ
+  subst h4
+  rw [h3]
+  apply Mat.ext33' <;> simp [mmul, rotx, roty, rotz, Fin.sum_univ_three]
+  · linear_combination h1
+  · linear_combination (-1) * h2
+  · apply mul_right_cancel₀ hρ2'
+    linear_combination (-M 1 0) * hρ2 + (M 0 2*ρ*sy) * h1 + (-1) * c10 + (-M 0 2) * c21 + (cy*ρ) * h2 + (-M 0 1) * h5 + (M 0 0*M 0 2) * h6
+  · apply mul_right_cancel₀ hρ2'
+    linear_combination (M 0 2) * c20 + (-M 1 1) * hρ2 + (cy*ρ) * h1 + (-M 0 2*ρ*sy) * h2 + (-1) * c11 + (M 0 0) * h5 + (M 0 1*M 0 2) * h6
+  · linear_combination (-1) * h6
+  · apply mul_right_cancel₀ hρ2'
+    linear_combination (-M 2 0) * hρ2 + (ρ*sr) * h6 + (-M 0 2*cr*ρ) * h5 + (-M 0 2*M 2 2) * h1 + (M 0 2) * c11 + (-M 1 2) * h2 + (-1) * c20
+  · apply mul_right_cancel₀ hρ2'
+    linear_combination (-M 2 1) * hρ2 + (ρ*sy) * h1 + (-M 0 2) * c10 + (-1) * c21 + (M 0 2*cy*ρ) * h2 + (-M 0 1*M 0 2) * h5 + (M 0 0) * h6
+  · linear_combination h5
+
+/-- **rpy2r(tr2rpy(R), 'xyz') = R** away from the pitch = ±90° singularity, on all eight branches (XYZ / arm order) -/
+theorem tr2rpy_xyz_right_inverse (hS : P.Sqrt) (hP : Atan2Polar P) (hA : AtanLaw P) (hN : NegLaw P)
+    (M : Mat 3 3 R) (hM : IsSO3 M) (v : Vec 3 R) (h : Gen.tr2rpy_xyz P M = .ok v)
+    (hns : ¬ |(|M 0 2| - 1)| < 5 / 2251799813685248) : Gen.rpy2r_xyz_rad P v = .ok M := by
+  have row0 : M 0 0 * M 0 0 + M 0 1 * M 0 1 + M 0 2 * M 0 2 = 1 := by
+    have e := congrFun (congrFun hM.orth 0) 0; simpa [mmul, mT, one3, Fin.sum_univ_three] using e
+  have col2 : M 0 2 * M 0 2 + M 1 2 * M 1 2 + M 2 2 * M 2 2 = 1 := by
+    have e := congrFun (congrFun hM.transpose_mul 2) 2; simpa [mmul, mT, one3, Fin.sum_univ_three] using e
+  have hlt : M 0 2 * M 0 2 < 1 := by
+    rcases lt_or_eq_of_le (by nlinarith [mul_self_nonneg (M 0 0), mul_self_nonneg (M 0 1)] : M 0 2 * M 0 2 ≤ 1) with h1 | h1
+    · exact h1
+    · exfalso; apply hns
+      have : |M 0 2| = 1 := by
+        have h2 : |M 0 2| * |M 0 2| = 1 := by rw [abs_mul_abs_self]; exact h1
+        have h3 : (|M 0 2| - 1) * (|M 0 2| + 1) = 0 := by linear_combination h2
+        rcases mul_eq_zero.mp h3 with h4 | h4
+        · linarith
+        · exfalso; linarith [abs_nonneg (M 0 2)]
+      rw [this]; simp
+  set ρ := P.sqrt (1 - M 0 2 * M 0 2) with hρdef
+  have hρ2 : ρ * ρ = 1 - M 0 2 * M 0 2 := hS.mul_self _ (by linarith)
+  have hρpos : 0 < ρ := by
+    rcases lt_or_eq_of_le (hS.nonneg (1 - M 0 2 * M 0 2)) with h1 | h1
+    · exact h1
+    · exfalso; rw [← hρdef] at h1; rw [← h1] at hρ2; linarith
+  have hρne : ρ ≠ 0 := ne_of_gt hρpos
+  have er : M 0 0 * M 0 0 + M 0 1 * M 0 1 = 1 - M 0 2 * M 0 2 := by linarith
+  have ey : M 2 2 * M 2 2 + M 1 2 * M 1 2 = 1 - M 0 2 * M 0 2 := by linarith
+  have nzr : M 0 0 ≠ 0 ∨ M 0 1 ≠ 0 := by
+    by_contra hc; push_neg at hc; rw [hc.1, hc.2] at er; linarith
+  have nzy : M 2 2 ≠ 0 ∨ M 1 2 ≠ 0 := by
+    by_contra hc; push_neg at hc; rw [hc.1, hc.2] at ey; linarith
+  obtain ⟨hcr0, hsr0⟩ := hP (M 0 1) (M 0 0) nzr
+  obtain ⟨hcy0, hsy0⟩ := hP (M 1 2) (M 2 2) nzy
+  rw [er, ← hρdef] at hcr0 hsr0
+  rw [ey, ← hρdef] at hcy0 hsy0
+  obtain ⟨nr1, nr2⟩ := hN (P.atan2 (M 0 1) (M 0 0))
+  obtain ⟨ny1, ny2⟩ := hN (P.atan2 (M 1 2) (M 2 2))
+  have hcr : P.cos (-(P.atan2 (M 0 1) (M 0 0))) * ρ = M 0 0 := by rw [nr1]; exact hcr0
+  have hsr : P.sin (-(P.atan2 (M 0 1) (M 0 0))) * ρ = -M 0 1 := by rw [nr2]; linear_combination -hsr0
+  have hcy : P.cos (-(P.atan2 (M 1 2) (M 2 2))) * ρ = M 2 2 := by rw [ny1]; exact hcy0
+  have hsy : P.sin (-(P.atan2 (M 1 2) (M 2 2))) * ρ = -M 1 2 := by rw [ny2]; linear_combination -hsy0
+  have keyp : ∀ a : R, a * ρ = M 0 2 →
+      mmul (mmul (Rx P (-(P.atan2 (M 1 2) (M 2 2)))) (Ry P (P.atan a))) (Rz P (-(P.atan2 (M 0 1) (M 0 0)))) = M := by
+    intro a ha
+    obtain ⟨hcp, hsp⟩ := pitch_of_atan_pos P hS hA (M 0 2) ρ a hρpos hρ2 ha
+    exact xyz_core M hM ρ _ _ _ _ _ _ hρne hρ2 hcr hsr hcp hsp hcy hsy
+  have keyn : ∀ a : R, a * ρ = -M 0 2 →
+      mmul (mmul (Rx P (-(P.atan2 (M 1 2) (M 2 2)))) (Ry P (-(P.atan a)))) (Rz P (-(P.atan2 (M 0 1) (M 0 0)))) = M := by
+    intro a ha
+    obtain ⟨hcp, hsp⟩ := pitch_of_atan P hS hA hN (-M 0 2) ρ a hρpos (by linear_combination hρ2) ha
+    exact xyz_core M hM ρ _ _ _ _ _ _ hρne hρ2 hcr hsr hcp (by rw [hsp]; ring) hcy hsy
+  unfold Gen.tr2rpy_xyz at h; simp only [] at h
+  rw [if_neg hns] at h
+  split_ifs at h with c1 c2 c3 c4 c5 c6 c7 <;> cases h <;> rw [(rpy2r_xyz P _).1] <;> congr 1 <;> simp only [v3_0, v3_1, v3_2]
+  · apply keyp; have d : M 2 2 ≠ 0 := abs_gt_ne c3
+    field_simp; linear_combination (M 0 2) * hcy
+  · apply keyn; have d : M 1 2 ≠ 0 := abs_gt_ne c2
+    field_simp; linear_combination (M 0 2) * hsy
+  · apply keyp; have d : M 2 2 ≠ 0 := abs_gt_ne c4
+    field_simp; linear_combination (M 0 2) * hcy
+  · apply keyn; have d : M 0 1 ≠ 0 := abs_gt_ne c1
+    field_simp; linear_combination (M 0 2) * hsr
+  · apply keyp; have d : M 2 2 ≠ 0 := abs_gt_ne c6
+    field_simp; linear_combination (M 0 2) * hcy
+  · apply keyn; have d : M 1 2 ≠ 0 := abs_gt_ne c5
+    field_simp; linear_combination (M 0 2) * hsy
+  · apply keyp; have d : M 2 2 ≠ 0 := abs_gt_ne c7
+    field_simp; linear_combination (M 0 2) * hcy
+  · apply keyp
+    have d : M 0 0 ≠ 0 := by
+      intro e
+      have h01 : M 0 1 = 0 := by
+        have : |M 0 1| ≤ |M 0 0| := not_lt.mp c1
+        rw [e, abs_zero] at this; exact abs_eq_zero.mp (le_antisymm this (abs_nonneg _))
+      rw [e, h01] at er; linarith
+    field_simp; linear_combination (M 0 2) * hcr
+
+/-! ### tr2rpy is a right inverse of rpy2r (YXZ / camera order) -/
+
+/-- algebraic core for the YXZ (camera) order: R = Ry(yaw) Rx(pitch) Rz(roll) -/
+theorem yxz_core (M : Mat 3 3 R) (hM : IsSO3 M) (ρ cr sr cp sp cy sy : R) (hρ : ρ ≠ 0)
+    (hρ2 : ρ * ρ = 1 - M 1 2 * M 1 2)
+    (h1 : cr * ρ = M 1 1) (h2 : sr * ρ = M 1 0) (h3 : cp = ρ) (h4 : sp = -M 1 2) (h5 : cy * ρ = M 2 2) (h6 : sy * ρ = M 0 2) :
+    mmul (mmul (roty cy sy) (rotx cp sp)) (rotz cr sr) = M := by
+  obtain ⟨c00, c01, c02, c10, c11, c12, c20, c21, c22⟩ := hM.cof
+  have hρ2' : ρ * ρ ≠ 0 := mul_ne_zero hρ hρ
+  subst h4
+  rw [h3]
+  apply Mat.ext33' <;> simp [mmul, rotx, roty, rotz, Fin.sum_univ_three]
+  · apply mul_right_cancel₀ hρ2'
+    linear_combination (cy*ρ) * h1 + (-1) * c00 + (-M 1 2*ρ*sy) * h2 + (M 1 2) * c21 + (-M 0 0) * hρ2 + (-M 1 0*M 1 2) * h6 + (M 1 1) * h5
+  · apply mul_right_cancel₀ hρ2'
+    linear_combination (-M 1 2*cr*ρ) * h6 + (-M 1 2) * c20 + (-ρ*sr) * h5 + (M 1 1*M 1 2 - M 1 2*cr*ρ) * c02 + (-M 2 2) * h2 + (-M 0 1) * hρ2 + (M 1 1*M 1 2*M 2 0 - M 1 0*M 1 2*M 2 1) * h1 + (-1) * c01
+  · linear_combination h6
+  · linear_combination h2
+  · linear_combination h1
+  · apply mul_right_cancel₀ hρ2'
+    linear_combination (-M 1 2) * c01 + (-ρ*sy) * h1 + (-1) * c20 + (-M 1 2*cy*ρ) * h2 + (-M 2 0) * hρ2 + (-M 1 1) * h6 + (-M 1 0*M 1 2) * h5
+  · apply mul_right_cancel₀ hρ2'
+    linear_combination (-M 2 1) * hρ2 + (-M 1 2*cy*ρ) * h1 + (-1) * c21 + (ρ*sy) * h2 + (M 1 2) * c00 + (-M 1 1*M 1 2) * h5 + (M 1 0) * h6
+  · linear_combination h5
+
+/-- **rpy2r(tr2rpy(R), 'yxz') = R** away from the pitch = ±90° singularity, on all eight branches (YXZ / camera order) -/
+theorem tr2rpy_yxz_right_inverse (hS : P.Sqrt) (hP : Atan2Polar P) (hA : AtanLaw P) (hN : NegLaw P)
+    (M : Mat 3 3 R) (hM : IsSO3 M) (v : Vec 3 R) (h : Gen.tr2rpy_yxz P M = .ok v)
+    (hns : ¬ |(|M 1 2| - 1)| < 5 / 2251799813685248) : Gen.rpy2r_yxz_rad P v = .ok M := by
+  have row1 : M 1 0 * M 1 0 + M 1 1 * M 1 1 + M 1 2 * M 1 2 = 1 := by
+    have e := congrFun (congrFun hM.orth 1) 1; simpa [mmul, mT, one3, Fin.sum_univ_three] using e
+  have col2 : M 0 2 * M 0 2 + M 1 2 * M 1 2 + M 2 2 * M 2 2 = 1 := by
+    have e := congrFun (congrFun hM.transpose_mul 2) 2; simpa [mmul, mT, one3, Fin.sum_univ_three] using e
+  have hlt : M 1 2 * M 1 2 < 1 := by
+    rcases lt_or_eq_of_le (by nlinarith [mul_self_nonneg (M 1 0), mul_self_nonneg (M 1 1)] : M 1 2 * M 1 2 ≤ 1) with h1 | h1
+    · exact h1
+    · exfalso; apply hns
+      have : |M 1 2| = 1 := by
+        have h2 : |M 1 2| * |M 1 2| = 1 := by rw [abs_mul_abs_self]; exact h1
+        have h3 : (|M 1 2| - 1) * (|M 1 2| + 1) = 0 := by linear_combination h2
+        rcases mul_eq_zero.mp h3 with h4 | h4
+        · linarith
+        · exfalso; linarith [abs_nonneg (M 1 2)]
+      rw [this]; simp
+  set ρ := P.sqrt (1 - M 1 2 * M 1 2) with hρdef
+  have hρ2 : ρ * ρ = 1 - M 1 2 * M 1 2 := hS.mul_self _ (by linarith)
+  have hρpos : 0 < ρ := by
+    rcases lt_or_eq_of_le (hS.nonneg (1 - M 1 2 * M 1 2)) with h1 | h1
+    · exact h1
+    · exfalso; rw [← hρdef] at h1; rw [← h1] at hρ2; linarith
+  have hρne : ρ ≠ 0 := ne_of_gt hρpos
+  have er : M 1 1 * M 1 1 + M 1 0 * M 1 0 = 1 - M 1 2 * M 1 2 := by linarith
+  have ey : M 2 2 * M 2 2 + M 0 2 * M 0 2 = 1 - M 1 2 * M 1 2 := by linarith
+  have nzr : M 1 1 ≠ 0 ∨ M 1 0 ≠ 0 := by
+    by_contra hc; push_neg at hc; rw [hc.1, hc.2] at er; linarith
+  have nzy : M 2 2 ≠ 0 ∨ M 0 2 ≠ 0 := by
+    by_contra hc; push_neg at hc; rw [hc.1, hc.2] at ey; linarith
+  obtain ⟨hcr, hsr⟩ := hP (M 1 0) (M 1 1) nzr
+  obtain ⟨hcy, hsy⟩ := hP (M 0 2) (M 2 2) nzy
+  rw [er, ← hρdef] at hcr hsr
+  rw [ey, ← hρdef] at hcy hsy
+  have key : ∀ a : R, a * ρ = M 1 2 →
+      mmul (mmul (Ry P (P.atan2 (M 0 2) (M 2 2))) (Rx P (-(P.atan a)))) (Rz P (P.atan2 (M 1 0) (M 1 1))) = M := by
+    intro a ha
+    obtain ⟨hcp, hsp⟩ := pitch_of_atan P hS hA hN (M 1 2) ρ a hρpos hρ2 ha
+    exact yxz_core M hM ρ _ _ _ _ _ _ hρne hρ2 hcr hsr hcp hsp hcy hsy
+  unfold Gen.tr2rpy_yxz at h; simp only [] at h
+  rw [if_neg hns] at h
+  split_ifs at h with c1 c2 c3 c4 c5 c6 c7 <;> cases h <;> rw [(rpy2r_yxz P _).1] <;> congr 1 <;> simp only [v3_0, v3_1, v3_2] <;> apply key
+  · have d : M 2 2 ≠ 0 := abs_gt_ne c3
+    field_simp; linear_combination (M 1 2) * hcy
+  · have d : M 0 2 ≠ 0 := abs_gt_ne c2
+    field_simp; linear_combination (M 1 2) * hsy
+  · have d : M 2 2 ≠ 0 := abs_gt_ne c4
+    field_simp; linear_combination (M 1 2) * hcy
+  · have d : M 1 1 ≠ 0 := abs_gt_ne c1
+    field_simp; linear_combination (M 1 2) * hcr
+  · have d : M 2 2 ≠ 0 := abs_gt_ne c6
+    field_simp; linear_combination (M 1 2) * hcy
+  · have d : M 0 2 ≠ 0 := abs_gt_ne c5
+    field_simp; linear_combination (M 1 2) * hsy
+  · have d : M 2 2 ≠ 0 := abs_gt_ne c7
+    field_simp; linear_combination (M 1 2) * hcy
+  · have d : M 1 0 ≠ 0 := by
+      intro e
+      have h11 : M 1 1 = 0 := by
+        have : |M 1 1| ≤ |M 1 0| := not_lt.mp c1
+        rw [e, abs_zero] at this; exact abs_eq_zero.mp (le_antisymm this (abs_nonneg _))
+      rw [e, h11] at er; linarith
+    field_simp; linear_combination (M 1 2) * hsr
+
+/-- the alias order names use the same extraction code -/
+theorem tr2rpy_aliases (M : Mat 3 3 R) :
+    Gen.tr2rpy_vehicle P M = Gen.tr2rpy_zyx P M ∧ Gen.tr2rpy_arm P M = Gen.tr2rpy_xyz P M ∧ Gen.tr2rpy_camera P M = Gen.tr2rpy_yxz P M := by
+  refine ⟨?_, ?_, ?_⟩
+  · unfold Gen.tr2rpy_vehicle Gen.tr2rpy_zyx; rfl
+  · unfold Gen.tr2rpy_arm Gen.tr2rpy_xyz; rfl
+  · unfold Gen.tr2rpy_camera Gen.tr2rpy_yxz; rfl
 
 end SmVerif.Props.C05
